@@ -66,6 +66,7 @@ func genRTConfig(ch *Chooser, prop, tier string, disabled map[string]bool) *RunC
 	cfg.HoldPm = []int{0, 0, 20, 60}[ch.Pick("r-hold", 4)]
 	cfg.NoisePm = []int{0, 0, 30, 100}[ch.Pick("r-noise", 4)]
 	cfg.BurstPm = []int{0, 0, 0, 20}[ch.Pick("r-burst", 4)]
+	cfg.LogYieldPm = []int{0, 30, 100}[ch.Pick("r-logyield", 3)]
 	cfg.CrashPm = 0 // the focus node is never crashed by the generic fault; cancellation is an explicit action
 	if prop == "C16" {
 		cfg.CancelAt = cancelAt
@@ -120,6 +121,7 @@ func RunRT(w *World) {
 	f.useRealTimer = w.cfg.FocusRealTimer
 	f.gatePolicy = w.focusGatePolicy(f)
 	f.lateResultPm = w.cfg.LateResultPm
+	f.simLogger = w.cfg.LogYieldPm > 0
 	for _, n := range w.honest() {
 		w.startNode(n)
 	}
@@ -209,6 +211,18 @@ func (w *World) rtStep(f *Node) bool {
 		return w.noiseInto(f)
 	case band(cfg.BurstPm):
 		return w.burstInto(f)
+	case band(cfg.LogYieldPm):
+		if f.logYieldIn > 0 || !f.simLogger {
+			return false
+		}
+		if w.ch.Pick("log-yield-near", 2) == 1 {
+			f.logYieldIn = 1 + w.ch.Pick("log-yield-in", 4)
+		} else {
+			f.logYieldIn = 1 + w.ch.Pick("log-yield-in", 40)
+		}
+		w.action("arm-log-yield")
+		w.ev("arm log yield n%d in %d lines", f.idx, f.logYieldIn)
+		return true
 	}
 	return false
 }
@@ -235,7 +249,7 @@ func (w *World) burstInto(f *Node) bool {
 			w.violate("C12", "handle-message-blocked", "HandleConsensusMessage did not return while the worker queue was full (message %d of a burst)", i)
 			return true
 		}
-		if forwardedByMainLoop(src.raw) && i < 1000-len(f.inbox) {
+		if forwardedByMainLoop(src.raw) && len(f.inbox) < workerQueueCap {
 			f.inbox = append(f.inbox, src.msg)
 		}
 	}
@@ -272,6 +286,11 @@ func (w *World) apiStress(f *Node) bool {
 	}
 	k := w.ch.Pick("api-which", len(cands))
 	burst := 1 + w.ch.Pick("api-burst", 3)
+	if f.simLogger && f.logYieldIn <= 0 && len(f.gates) == 0 && w.ch.Pick("api-log-yield", 4) == 3 {
+		// hold the worker at one of its next log lines, i.e. inside its handling of the first sync of the burst
+		f.logYieldIn = 1 + w.ch.Pick("log-yield-in", 4)
+		w.ev("arm log yield n%d in %d lines (sync burst)", f.idx, f.logYieldIn)
+	}
 	for b := 0; b < burst && w.viol == nil; b++ {
 		idx := (k + b) % len(cands)
 		cls := "older"
@@ -363,7 +382,27 @@ func (w *World) cancelFocus(f *Node) {
 		lh.WaitUntilShutdown(context.Background())
 		close(done)
 	}()
-	// SPI fakes honour their context; late-result gates are released by the consumer at shutdown
+	// SPI fakes honour their context; late-result gates are released by the consumer at shutdown.
+	// A consumer that is slow to come back (a call that ignores its context, a slow logger): with the real election
+	// timer, let the timer expire first - its goroutine then finds nobody reading the election channel - and only
+	// then let the worker return and dispose of its term.
+	if f.realTrig != nil && f.realTrig.armed && w.ch.Pick("cancel-slow-consumer", 2) == 1 {
+		synctest.Wait()
+		slow := false
+		for _, g := range f.gates {
+			if g.ignoresCtx {
+				slow = true
+			}
+		}
+		w.syncClock()
+		if d := f.realTrig.expiry - w.now + time.Millisecond; slow && d > 0 && d < 24*time.Hour {
+			w.stats.Fault("shutdown-slow-consumer")
+			w.ev("slow consumer: %v pass before its calls return (the election timer expires meanwhile)", d)
+			w.sleep(d)
+			synctest.Wait()
+			w.probe("timer-expired-during-shutdown")
+		}
+	}
 	w.drainNode(f)
 	synctest.Wait()
 	select {
@@ -397,9 +436,9 @@ func (w *World) cancelFocus(f *Node) {
 		return
 	}
 	// hours of fake time: the election timer must be stopped, nothing may fire
-	time.Sleep(72 * time.Hour)
+	w.sleep(72 * time.Hour)
 	synctest.Wait()
-	w.syncClock()
+	w.harnessClock()
 	if f.trig != nil && f.trig.cur != nil && !f.trig.cur.stale {
 		w.violate("C16", "timer-not-stopped", "the election scheduler of n%d is still armed for (h%d,v%d) after shutdown", f.idx, f.trig.cur.h, f.trig.cur.v)
 		return
